@@ -1,6 +1,7 @@
 // C15 monitor: interpolation hits its end points, rejects parameters outside [0,1]; SLERP follows the geodesic.
 #define MON_NAME "c15_interp"
 #include "mon.h"
+#include <cstring>
 #include <manif/algorithms/interpolation.h>
 #include <limits>
 
@@ -79,6 +80,60 @@ void runCase(long long i, Prng& r, const Args& a) {
       char lb[48]; snprintf(lb, sizeof lb, "t=%g", tb);
       LOG.cell("outside-rejected/" + mk + lb, threw ? 0 : 1);
       if (!threw) viol("outside-accepted/" + mk + lb, 1);
+    }
+  }
+  // the three method functions called directly (not through the dispatcher), interpolate_smooth for every supported degree, and the
+  // forms with the end velocities omitted: end points, range check, bit-identity with the dispatcher where it forwards
+  {
+    auto ends = [&](const std::string& what, const MonG& I0, const MonG& I1) {
+      double e0 = (double)(ref::gdiff(gmOf(I0), MA) / (sc * tf)), e1 = (double)(ref::gdiff(gmOf(I1), MB) / (sc * tf));
+      LOG.cell("direct-endpoints/" + what + "/" + gx + lt, std::max(e0, e1));
+      if (!(e0 <= tol)) viol("endpoint-t=0/" + what + "/" + gx + dropLin(lt), e0);
+      if (!(e1 <= tol)) viol("endpoint-t=1/" + what + "/" + gx + dropLin(lt), e1);
+    };
+    auto same = [&](const std::string& what, const MonG& x, const MonG& y) {
+      bool ok = std::memcmp(x.data(), y.data(), sizeof(MonS) * MonG::RepSize) == 0;
+      LOG.cell("dispatcher-forwards/" + what + "/" + GN(), ok ? 0 : 1);
+      if (!ok) viol("dispatcher-differs-from-direct-call/" + what + "/" + GN(), 1);
+    };
+    const MonS th = (MonS)r.uni(0.01, 0.99), z0(0), z1(1);
+    const MonT zero = MonT::Zero();
+    try {
+      ends("interpolate_slerp", manif::interpolate_slerp(A, B, z0), manif::interpolate_slerp(A, B, z1));
+      ends("interpolate_cubic", manif::interpolate_cubic(A, B, z0, va, vb), manif::interpolate_cubic(A, B, z1, va, vb));
+      ends("interpolate_cubic(default-velocities)", manif::interpolate_cubic(A, B, z0), manif::interpolate_cubic(A, B, z1));
+      for (unsigned m = 1; m <= 4; ++m) {
+        ends("interpolate_smooth(m=" + std::to_string(m) + ")", manif::interpolate_smooth(A, B, z0, m, va, vb), manif::interpolate_smooth(A, B, z1, m, va, vb));
+        MonG Ih = manif::interpolate_smooth(A, B, th, m, va, vb);
+        double nd = (double)normDev(g, Ih.coeffs());
+        if (!finiteVec(Ih.coeffs()) || !(nd < Sc<MonS>::eps())) viol("interior-invalid/interpolate_smooth(m=" + std::to_string(m) + ")/" + gx + dropLin(lt), nd);
+      }
+      ends("interpolate_smooth(m=3,default-velocities)", manif::interpolate_smooth(A, B, z0, 3), manif::interpolate_smooth(A, B, z1, 3));
+      ends("interpolate(default-method)", manif::interpolate(A, B, z0), manif::interpolate(A, B, z1));
+      ends("interpolate(CUBIC,default-velocities)", manif::interpolate(A, B, z0, manif::INTERP_METHOD::CUBIC), manif::interpolate(A, B, z1, manif::INTERP_METHOD::CUBIC));
+      ends("interpolate(CNSMOOTH,default-velocities)", manif::interpolate(A, B, z0, manif::INTERP_METHOD::CNSMOOTH), manif::interpolate(A, B, z1, manif::INTERP_METHOD::CNSMOOTH));
+      // the dispatcher forwards: same bits as the direct call
+      same("SLERP", manif::interpolate(A, B, th, manif::INTERP_METHOD::SLERP, va, vb), manif::interpolate_slerp(A, B, th));
+      same("default=SLERP", manif::interpolate(A, B, th), manif::interpolate_slerp(A, B, th));
+      same("CUBIC", manif::interpolate(A, B, th, manif::INTERP_METHOD::CUBIC, va, vb), manif::interpolate_cubic(A, B, th, va, vb));
+      same("CUBIC(default-velocities=zero)", manif::interpolate(A, B, th, manif::INTERP_METHOD::CUBIC), manif::interpolate_cubic(A, B, th, zero, zero));
+      same("CNSMOOTH(default-velocities=zero)", manif::interpolate(A, B, th, manif::INTERP_METHOD::CNSMOOTH), manif::interpolate(A, B, th, manif::INTERP_METHOD::CNSMOOTH, zero, zero));
+    } catch (const std::exception& e) { viol("throws-inside-[0,1]/direct/" + gx + dropLin(lt), 1, e.what()); }
+    // range check and degree check of the direct calls
+    const MonS outs[] = {(MonS)-1e-3, (MonS)1.001, (MonS)-1, (MonS)2};
+    for (MonS tb : outs) {
+      int acc = 0;
+      try { manif::interpolate_slerp(A, B, tb); ++acc; } catch (const std::exception&) {}
+      try { manif::interpolate_cubic(A, B, tb, va, vb); ++acc; } catch (const std::exception&) {}
+      for (unsigned m = 1; m <= 4; ++m) try { manif::interpolate_smooth(A, B, tb, m, va, vb); ++acc; } catch (const std::exception&) {}
+      LOG.cell("direct-outside-rejected/" + GN(), acc);
+      if (acc) viol("outside-accepted/direct-call/" + GN(), acc);
+    }
+    for (unsigned m : {0u, 5u, 6u, 100u}) {
+      bool threw = false;
+      try { manif::interpolate_smooth(A, B, th, m, va, vb); } catch (const std::exception&) { threw = true; }
+      LOG.cell("unsupported-degree-raises/interpolate_smooth/" + GN(), threw ? 0 : 1);
+      if (!threw) viol("unsupported-degree-accepted/interpolate_smooth(m=" + std::to_string(m) + ")/" + GN(), 1);
     }
   }
   // SLERP: log(A^-1 m(t)) = t log(A^-1 B); commutes with left translation
